@@ -76,6 +76,7 @@ PROPS = {
                            ('c10_literal_float_shape_missing_parts_bounded', 'bounded:token shapes .DeD and D.'),
                            ('c10_literal_float_rejects_integers_bounded', 'bounded:token shape DD'),
                            ('c10_float_exponent_value_bounded', 'bounded:token shape e sign DDD'),
+                           ('c10_token_stream_spans_tile_bounded', 'bounded:inputs of at most 6 bytes, 3 tokens'),
                            ('c08_float_exponent_total_bounded', 'bounded:inputs of at most 22 bytes')], 'tier': 'quick'},
         ],
         'design_ref': 'DESIGN.md Part I, I.4 (C10)',
